@@ -319,6 +319,23 @@ func knownNonNilError(v ssa.Value) bool {
 			case "fmt.Errorf", "errors.New", "google.golang.org/grpc/status.Error", "google.golang.org/grpc/status.Errorf":
 				return true
 			}
+			// an error constructor of the module: every return is itself a known non-nil error
+			if inModule(funcPkgPath(callee)) && callee.Blocks != nil && callee.Signature.Results().Len() == 1 && !errCtorBusy[callee] {
+				if v, ok := errCtorMemo[callee]; ok {
+					return v
+				}
+				errCtorBusy[callee] = true
+				all := true
+				rets := returnsOf(callee)
+				for _, r := range rets {
+					if len(r.Results) != 1 || !knownNonNilError(r.Results[0]) {
+						all = false
+					}
+				}
+				delete(errCtorBusy, callee)
+				errCtorMemo[callee] = all && len(rets) > 0
+				return errCtorMemo[callee]
+			}
 		}
 	case *ssa.MakeInterface:
 		return true
@@ -1272,3 +1289,8 @@ func aliasHelperResults(fl *Flow, facts FactSet) FactSet {
 // expandPureHelpers: set while expandedKey runs, so that unexported single-expression helpers of the
 // package (pure, hence keyed without a site id) are replaced by the expression they return.
 var expandPureHelpers bool
+
+var (
+	errCtorMemo = map[*ssa.Function]bool{}
+	errCtorBusy = map[*ssa.Function]bool{}
+)
